@@ -34,6 +34,8 @@ type lifeScenario struct {
 	async         bool
 	closeInActive bool // the active handler closes the channel
 	closeInRead   int  // the read handler closes the channel during its k-th read (0 = never)
+	panicInActive bool // the active handler panics (with a string value)
+	swallow       bool // a user exception handler swallows the exception of the active panic
 	threads       [][]lifeOp
 }
 
@@ -43,6 +45,8 @@ func lifeErrClass(err error) string {
 	switch {
 	case err == nil:
 		return "nil"
+	case strings.Contains(err.Error(), "active-panic"):
+		return "activepanic"
 	case errors.Is(err, io.EOF):
 		return "eof"
 	case errors.Is(err, errE1):
@@ -70,6 +74,10 @@ type lifeHead struct {
 
 func (h *lifeHead) HandleActive(ctx netty.ActiveContext) {
 	h.c.Emit("active:b")
+	if h.sc.panicInActive {
+		h.c.Emit("active:p")
+		panic("active-panic")
+	}
 	if h.sc.closeInActive {
 		h.c.Emit("closecall:in:e1")
 		ctx.Channel().Close(errE1)
@@ -106,15 +114,35 @@ func (h *lifeHead) HandleInactive(ctx netty.InactiveContext, ex netty.Exception)
 	ctx.HandleInactive(ex)
 }
 
-// exception events are forwarded to the tail, which closes the channel (default handling)
+// exception events are forwarded to the tail, which closes the channel (default handling), unless the
+// scenario has a user handler that swallows the active handler's panic
+type lifeExc struct {
+	c  *rt.Controller
+	sc *lifeScenario
+}
+
+func (h lifeExc) HandleException(ctx netty.ExceptionContext, ex netty.Exception) {
+	cls := lifeErrClass(ex)
+	if strings.Contains(ex.Error(), "active-panic") {
+		cls = "activepanic"
+	}
+	h.c.Emit("exc:%s", cls)
+	if cls == "activepanic" && h.sc.swallow {
+		return
+	}
+	ctx.HandleException(ex)
+}
 
 func genLife(rng *rand.Rand) *lifeScenario {
 	sc := &lifeScenario{async: rng.Intn(2) == 0}
-	switch rng.Intn(8) {
+	switch rng.Intn(10) {
 	case 0:
 		sc.closeInActive = true
 	case 1, 2:
 		sc.closeInRead = 1 + rng.Intn(2)
+	case 3, 4:
+		sc.panicInActive = true
+		sc.swallow = rng.Intn(2) == 0
 	}
 	// the feeder: some successful reads, then possibly a read-side failure
 	var t1 []lifeOp
@@ -162,7 +190,7 @@ func runLifeScenario(sc *lifeScenario, strat rt.Strategy) *rt.Controller {
 		}
 	}
 	pl := netty.NewPipeline()
-	pl.AddLast(&lifeHead{c: c, sc: sc})
+	pl.AddLast(&lifeHead{c: c, sc: sc}, lifeExc{c: c, sc: sc})
 	var ch netty.Channel
 	if sc.async {
 		ch = netty.NewAsyncWriteChannel(4, true)(1, context.Background(), pl, tr, exitExec{c})
@@ -224,7 +252,7 @@ func runLifeScenario(sc *lifeScenario, strat rt.Strategy) *rt.Controller {
 }
 
 func printLife(sc *lifeScenario, c *rt.Controller) {
-	emit("C05L cfg %d %d %d", b2i(sc.async), b2i(sc.closeInActive), sc.closeInRead)
+	emit("C05L cfg %d %d %d %d %d", b2i(sc.async), b2i(sc.closeInActive), sc.closeInRead, b2i(sc.panicInActive), b2i(sc.swallow))
 	for ti, ops := range sc.threads {
 		ss := make([]string, len(ops))
 		for i, o := range ops {
